@@ -15,6 +15,16 @@ CLAIMED = {
              "(ExtrOcamlBasic, ExtrOcamlNativeString) and the OCaml read-line driver.",
         technique="Coq proof by induction + text-equality correspondence + extracted-AVM differential run",
         design_ref="DESIGN.md §4 C16"),
+    "C17": dict(
+        text="Proof (Coq, closed under the global context): for every finite block graph (cycles included) the model of TealBlock.validateSlots "
+             "terminates and reports exactly the loads that have a store-free scan path from the routine start, hence every load with a store-free "
+             "control-flow path (C17_validate_complete; memoisation on (block, slot set) shown lossless). Tie: exact ordered-error-list equality "
+             "model vs real validateSlots on hand-built and compiler-built graphs, assignScratchSlotsToSubroutines raise/cause; end-to-end compileTeal "
+             "rejection checked against an independent definite-assignment analysis of generated programs, versions 6..10, optimiser on/off.",
+        note="Trusted: Coq kernel; Comp/ValidateSlots.v is a hand model tied by correspondence; the consequence for accepted programs (_partial) is stated on "
+             "abstract block-graph execution, not the AVM. Two known findings (C20 crashes that pre-empt the load check).",
+        technique="Coq proof of DFS-with-shared-memo completeness/exactness + extracted-model correspondence + recipe-level definite-assignment oracle",
+        design_ref="DESIGN.md §4 C17, design_notes/C17.md"),
 }
 
 NOT_YET = "check not built yet in this round (machinery under construction; see DESIGN.md §7 build order)"
